@@ -862,6 +862,7 @@ Qed.
 Lemma load_closed : forall ts, closed (fst (load ts [])) = true.
 Proof. intro ts. apply load_closed_gen. reflexivity. Qed.
 
+
 (* ================================================================ F. the repaired machine:
    when injection deep-copies (context.update(copy.deepcopy(in))), EVERY operation list is
    disciplined with the empty taint set — no key is ever bound to a definition object *)
@@ -903,6 +904,22 @@ Proof.
   - apply fold_taint_nil. exact defaults_taint_nil.
 Qed.
 
+Lemma inject_fixed_ok : forall fuel k c dh p dh' p',
+  (if negb (running p) then (dh, p) else
+   match copy fuel dh (ph p) [] c with
+   | Some (h, _, c') => (dh, set_ctx (aset k c' (ctx p)) (set_ph h p))
+   | None => (dh, unsup p)
+   end) = (dh', p') -> pinv [] p -> dh' = dh /\ pinv [] p'.
+Proof.
+  intros fuel k c dh p dh' p' E Hp. destruct (running p) eqn:R; cbn [negb] in E.
+  - destruct (Hp R) as [Hh Hx].
+    destruct (copy fuel dh (ph p) [] c) as [[[h m] c']|] eqn:Ec; inversion E; subst.
+    + destruct (copy_ok _ _ _ _ _ _ _ _ Ec Hh (Forall_nil _)) as [A [_ C]].
+      split; [reflexivity|]. intros _. split; [exact A|]. apply ctxfree_set; assumption.
+    + split; [reflexivity|]. intro R'. discriminate.
+  - inversion E; subst. split; [reflexivity|assumption].
+Qed.
+
 Lemma step_fixed_ok : forall o dh p dh' p',
   step_fixed dh p o = (dh', p') -> pinv [] p -> dh' = dh /\ pinv [] p'.
 Proof.
@@ -911,13 +928,7 @@ Proof.
                    step dh p o = (dh', p') -> dh' = dh /\ pinv [] p').
   { intros Ho Es. exact (step_ok [] [] o dh p dh' p' (check_op_nil o Ho) Es Hp). }
   destruct o as [k c|k|k t|k k'|k t|m k t|k z|k s z|ps|ps|k k' n|k z|]; try (apply Hother; [exact I|exact E]).
-  cbn [step_fixed] in E. destruct (running p) eqn:R; cbn [negb] in E.
-  - destruct (Hp R) as [Hh Hx].
-    destruct (copy FUEL dh (ph p) [] c) as [[[h m] c']|] eqn:Ec; inversion E; subst.
-    + destruct (copy_ok _ _ _ _ _ _ _ _ Ec Hh (Forall_nil _)) as [A [_ C]].
-      split; [reflexivity|]. intros _. cbn. split; [assumption|apply ctxfree_set; assumption].
-    + split; [reflexivity|]. intro R'. discriminate.
-  - inversion E; subst. split; [reflexivity|assumption].
+  exact (inject_fixed_ok FUEL k c dh p dh' p' E Hp).
 Qed.
 
 Lemma fixed_read_only : forall ops dh p, pinv [] p -> read_only step_fixed dh p ops.
@@ -931,7 +942,7 @@ Lemma fixed_run_unchanged : forall dh r, closed dh = true -> fst (run1_with step
 Proof.
   intros dh r Hc. unfold run1_with.
   pose proof (read_only_exec step_fixed (r_ops r) dh (start r) (fixed_read_only _ _ _ (start_ok r))) as H.
-  destruct (exec step_fixed dh (start r) (r_ops r)) as [dh1 p1]. cbn in *. subst dh1.
+  destruct (exec step_fixed dh (start r) (r_ops r)) as [dh1 p1]. cbn [fst snd] in *. subst dh1.
   apply finish_closed. assumption.
 Qed.
 
